@@ -32,6 +32,9 @@ def _circ(j):
     return Circuit([X(0)] + [RZ(0.1 * (j + 1))(0)])
 
 
+from ..common import Snap, guarded
+
+
 def check_case(ctx, c):
     """returns list of (key, message)"""
     from orquestra.quantum.circuits import (
@@ -70,12 +73,25 @@ def check_case(ctx, c):
         countsB = [{format(i, "0%db" % width): n, "0" * width: 1} for i, n in runs]
         bits = [[format(i, "0%db" % width)] * n for i, n in runs]
         exp = c["comb"]
+        snap = Snap([countsA, countsB, bits, mult])
         try:
             gotA = combine_measurement_counts(countsA, mult)
             gotB = combine_measurement_counts(countsB, mult)
             gotS = combine_bitstrings(bits, mult)
+            # value semantics: the per-copy results are not consumed - combining the same results again gives the same totals
+            againA = combine_measurement_counts(countsA, mult)
+            againS = combine_bitstrings(bits, mult)
+            # a backend may hand back ONE result object for identical copies (memoised): every copy still counts once
+            shared = {"0" * width: 1}
+            gotShared = combine_measurement_counts([shared] * len(runs), mult)
         except Exception as ex:
             return [("combine:raised", "combine raised %r for runs=%s mult=%s" % (ex, runs, mult))]
+        if snap.changed():
+            out.append(("combine:mutated", "combining modified its arguments (runs=%s mult=%s)" % (runs, mult)))
+        if [dict(x) for x in againA] != [dict(x) for x in gotA] or [list(x) for x in againS] != [list(x) for x in gotS]:
+            out.append(("combine:twice", "combining the same per-copy results a second time gave %s, first %s" % (againA, gotA)))
+        if [dict(x) for x in gotShared] != [{"0" * width: m} for m in mult] or shared != {"0" * width: 1}:
+            out.append(("combine:shared-object", "combining %d references to one result {'0..0': 1} with multiplicities %s gave %s" % (len(runs), mult, gotShared)))
         expA = [{format(i, "0%db" % width): n for i, n in grp} for grp in exp]
         expS = [sum(([format(i, "0%db" % width)] * n for i, n in grp), []) for grp in exp]
         if [dict(x) for x in gotA] != expA:
@@ -199,14 +215,14 @@ def run(ctx):
     rng = random.Random(ctx.seed)
     for c in res.emitted:
         ctx.count(c, nontrivial=len(c["ns"]) > 0)
-        for key, msg in check_case(ctx, c):
+        for key, msg in guarded(check_case, ctx, c):
             ctx.violation(key, msg, c)
     pipe = [c for c in res.emitted if c["k"] == "expand" and c["ns"]]
     rng.shuffle(pipe)
     for c in pipe[: 150 if ctx.tier == "quick" else 1500]:
         pc = {"k": "pipeline", "ns": c["ns"], "mx": c["mx"], "seed": ctx.seed}
         ctx.count(pc)
-        for key, msg in check_case(ctx, pc):
+        for key, msg in guarded(check_case, ctx, pc):
             ctx.violation(key, msg, pc)
     # ---- code -> spec --------------------------------------------------------------------------
     path = os.path.join(ctx.tmp, "shots.ndjson")
@@ -270,5 +286,5 @@ def replay(ctx, case):
             ctx.violation(e["op"] + ":not-allowed", "result %s not allowed by Shots" % e["r"], e)
         return
     ctx.count(case)
-    for key, msg in check_case(ctx, case):
+    for key, msg in guarded(check_case, ctx, case):
         ctx.violation(key, msg, case)
